@@ -234,7 +234,7 @@ Section D.
   Proof.
     intros HF st He Hw Hp Hs Hv Hd Hf. cbn [sval_of]. rewrite gser_map.
     pose proof (pre_align e _ Hp Hw) as Hal. cbn [gsig] in Hal, Hs |- *.
-    destruct (pre_node e _ Hp) as (Hnb & Hnt & Hne & Hnk & Hsmall).
+    destruct (pre_node e _ Hp) as (Hnb & Hnt & Hne & Hsmall).
     cbn [gwf] in Hw. apply andb_true_iff in Hw as [Hw Hwl]. apply andb_true_iff in Hw as [Hkb Hvs].
     unfold pre in Hp. rewrite all_nodes_dict in Hp. apply andb_true_iff in Hp as [_ Hpl].
     cbn [gdepth_ok] in Hf.
@@ -255,7 +255,7 @@ Section D.
               gwf (fst q0) = true /\ gwf (snd q0) = true /\ gsig (fst q0) = ks /\ gsig (snd q0) = vs /\
               pre e (fst q0) = true /\ pre e (snd q0) = true /\
               (gis_fixed ks && gis_fixed vs = true -> padn (len (concat (entry_parts e vs q0))) al = 0) /\
-              (gis_fixed ks = false -> entry_size_bad (len (concat (entry_parts e vs q0))) = false)).
+              len (concat (entry_parts e vs q0)) < 2 ^ 60).
     { intros q0 Hq0. rewrite forallb_forall in Hwl, Hpl. specialize (Hwl q0 Hq0). specialize (Hpl q0 Hq0).
       apply andb_true_iff in Hwl as [Hwl Hq4]. apply andb_true_iff in Hwl as [Hwl Hq3]. apply andb_true_iff in Hwl as [Hq1 Hq2].
       apply sig_eqb_eq in Hq3, Hq4. apply andb_true_iff in Hpl as [Hq5 Hq6].
@@ -264,9 +264,8 @@ Section D.
         destruct (padn (len (concat (entry_parts e vs q0))) al =? 0) eqn:Hz; [now apply N.eqb_eq in Hz|].
         exfalso. rewrite <- Bool.not_true_iff_false in Hnt. apply Hnt. apply existsb_exists. exists q0. split; [assumption|].
         change (N.max (galign ks) (galign vs)) with al. now rewrite Hz.
-      - intros Hfx. cbn [node_dict_key] in Hnk. rewrite Hfx in Hnk. cbn [negb andb] in Hnk.
-        destruct (entry_size_bad (len (concat (entry_parts e vs q0)))) eqn:Hz; [|reflexivity].
-        exfalso. rewrite <- Bool.not_true_iff_false in Hnk. apply Hnk. apply existsb_exists. exists q0. split; assumption. }
+      - pose proof (entry_len_data e ks vs l 0 q0 Hq0) as Hle. rewrite gvb_dict in Hsmall. cbv zeta in Hsmall.
+        destruct (gis_fixed ks && gis_fixed vs); [|rewrite len_app in Hsmall]; lia. }
     assert (Hok : Forall (entry_ok e d' ks vs) l1).
     { apply Forall_forall. intros q0 Hq0.
       destruct (Hside q0) as (A1 & A2 & A3 & A4 & A5 & A6 & A7 & A8); [rewrite Hl; apply in_or_app; now left|].
